@@ -679,6 +679,20 @@ func (s *session) deliver(op hOp) {
 		}
 		ev.absorbed = true
 		s.settle(m, ev, e.Kind != "ikey" && e.Kind != "txn")
+		// absorbed events still advance the tracked position
+		if offs, _, _ := s.st.GetOffsets(); offs != nil {
+			if off, ok := offs.Load(m.vb); !ok || off.SeqNo != m.maxSettle {
+				got := uint64(0)
+				if ok {
+					got = off.SeqNo
+				}
+				prop := "C04"
+				if e.Kind == "ikey" || e.Kind == "txn" {
+					prop = "C14"
+				}
+				s.fail(prop, "vb %d: tracked position %d after the library absorbed %s event seq %d, furthest settled is %d", m.vb, got, e.Kind, e.Seq, m.maxSettle)
+			}
+		}
 		if len(m.pending) > 0 {
 			s.label("absorb_overtakes_unacked")
 		}
